@@ -25,8 +25,15 @@ CONSTANTS SafeStore,        \* TRUE: a pre-populated *[][]string is replaced wha
           CopyOnReuse,      \* TRUE: records kept in memory are copied when ReuseRecord is on (normative)
                             \* FALSE: as-built, they all alias the reader's buffer (D11b)
           GuardTypedNil,    \* TRUE: typed-nil pointers yield an error; FALSE: as-built reflect panic (D11c)
-          BinMarshalerOpts  \* TRUE: the reader options also apply to a BinaryMarshaler source (normative)
+          BinMarshalerOpts, \* TRUE: the reader options also apply to a BinaryMarshaler source (normative)
                             \* FALSE: as-built, that source is parsed with default options (D24)
+          ClonesCapLimited, \* TRUE: a record copied because of ReuseRecord owns its backing array (the code)
+                            \* FALSE: mutated model, copies are carved out of a shared chunk without a capacity limit
+          ParseErrorWins,   \* TRUE: a malformed input is reported with the parser's error by every kind (normative)
+                            \* FALSE: mutated / racy model, an io.WriterTo source that still has text to write
+                            \*        reports its "closed pipe" error instead (D27)
+          SharedSkipCounter \* FALSE: every call skips the configured number of lines (the code: options by value)
+                            \* TRUE: mutated model, the skip loop counts down the codec's own counter
 
 Drop(s, n) == IF n >= Len(s) THEN <<>> ELSE SubSeq(s, n + 1, Len(s))
 Min(a, b) == IF a < b THEN a ELSE b
@@ -51,9 +58,13 @@ BufferedCSV(table, bad, skip) ==
 (* csvRecordsWriter.Write keeps the slice it is given: with ReuseRecord    *)
 (* every kept record is the reader's one buffer, i.e. shows the last       *)
 (* record read                                                             *)
+(* alias: changing one kept record - overwriting a field OR APPENDING to it  *)
+(* - shows in another one                                                   *)
 RecordsWriter(recs, reuse, lastRead) ==
   IF reuse /\ ~CopyOnReuse /\ Len(recs) >= 1
   THEN [recs |-> [i \in 1..Len(recs) |-> lastRead], alias |-> Len(recs) >= 2]
+  ELSE IF reuse /\ ~ClonesCapLimited
+  THEN [recs |-> recs, alias |-> Len(recs) >= 2]        \* neighbours in one chunk: append to row i overwrites row i+1
   ELSE [recs |-> recs, alias |-> FALSE]
 
 (* v.Grow(n); v.SetCap(n); v.SetLen(n); reflect.Copy(v, records) *)
@@ -81,6 +92,9 @@ SrcSupported == {"csvreader", "customreader", "reader", "readcloser", "writerto"
 StreamingDst == {"csvwriter", "customwriter", "writer"}           \* pipeCSV straight into the destination
 StreamingSrc == {"csvreader", "customreader", "reader", "readcloser", "writerto", "records", "precords"}
 
+(* c.tail (optional): the malformed input goes on for more than the read buffers after the bad record *)
+HasTail(c) == IF "tail" \in DOMAIN c THEN c.tail ELSE FALSE
+
 Out(err, delivered, alias, panic) == [err |-> err, delivered |-> delivered, alias |-> alias, panic |-> panic]
 
 LastRead(c) == IF c.table = <<>> THEN <<>> ELSE c.table[Len(c.table)]
@@ -104,8 +118,11 @@ Consume(c) ==
 
 Produce(c) ==
   CASE c.kind = "nil" -> Out("other", <<>>, FALSE, FALSE)
-    [] c.kind \in {"csvreader", "customreader", "reader", "readcloser", "writerto"} ->
+    [] c.kind \in {"csvreader", "customreader", "reader", "readcloser"} ->
          LET r == PipeCSV(c.table, c.bad, c.skip) IN Out(r.err, r.recs, FALSE, FALSE)
+    [] c.kind = "writerto" ->             \* WriteTo feeds a pipe in a goroutine; the reading side's error is the result
+         LET r == PipeCSV(c.table, c.bad, c.skip) IN
+         Out(IF r.err = "parse" /\ HasTail(c) /\ ~ParseErrorWins THEN "other" ELSE r.err, r.recs, FALSE, FALSE)
     [] c.kind = "binm" ->                                                 \* csv.NewReader(buf): options not applied
          LET t == IF BinMarshalerOpts THEN [table |-> c.table, bad |-> c.bad] ELSE c.alt
              r == BufferedCSV(t.table, t.bad, c.skip)
@@ -130,7 +147,7 @@ Supported(c) == IF c.dir = "consume" THEN c.kind \in DstSupported ELSE c.kind \i
 Allowed(c, o) ==
   /\ ~o.panic
   /\ IF ~Supported(c) THEN o.err # "none"                     \* unsupported, nil, typed-nil, non-pointer: an error
-     ELSE IF c.bad THEN o.err # "none"                        \* the parser's error, not partial success
+     ELSE IF c.bad THEN o.err = "parse"                       \* the PARSER's error (every kind the same), not partial success
      ELSE /\ o.err = "none"
           /\ o.delivered = Expected(c)                        \* same count, order, field text - for every kind
           /\ ~o.alias                                         \* delivered records are distinct objects
@@ -138,8 +155,30 @@ Allowed(c, o) ==
 WhyNot(c, o) ==
   IF o.panic THEN "panic"
   ELSE IF ~Supported(c) THEN "unsupported-kind-accepted"
-  ELSE IF c.bad THEN "malformed-input-accepted"
+  ELSE IF c.bad THEN (IF o.err = "none" THEN "malformed-input-accepted" ELSE "not-the-parsers-error")
   ELSE IF o.err # "none" THEN "unexpected-error"
   ELSE IF o.delivered # Expected(c) THEN "records-differ"
   ELSE "records-alias"
+(***************************************************************************)
+(* Reuse of ONE codec value for several calls (state machine).  The        *)
+(* options belong to the codec; every call must behave like the first.     *)
+(*   c.calls = <<[table, bad], ...>>   the inputs of the successive calls   *)
+(* The only state a call could leave behind is the skipped-lines counter:  *)
+(* the loop  for ; skip > 0; skip-- { Read; on EOF/error return }  leaves   *)
+(* skip - n (n = records read) when it runs into the end.                  *)
+(***************************************************************************)
+CallCfg(c, i) == [c EXCEPT !.table = c.calls[i].table, !.bad = c.calls[i].bad]
+
+LeftAfter(table, skip) == IF skip > Len(table) THEN skip - Len(table) ELSE 0
+
+RECURSIVE RunCalls(_, _, _)
+RunCalls(c, i, skipNow) ==
+  IF i > Len(c.calls) THEN <<>>
+  ELSE LET ci == [CallCfg(c, i) EXCEPT !.skip = skipNow]
+           nx == IF SharedSkipCounter /\ Supported(c) THEN LeftAfter(ci.table, skipNow) ELSE c.skip
+       IN <<Model(ci)>> \o RunCalls(c, i + 1, nx)
+
+ReuseModel(c) == RunCalls(c, 1, c.skip)
+
+ReuseAllowed(c, outs) == \A i \in 1..Len(c.calls) : Allowed(CallCfg(c, i), outs[i])
 =============================================================================
